@@ -379,7 +379,7 @@ func (sb *Sandbox) Run(bin string, extraEnv []string, args ...string) *Result {
 	env := []string{"HOME=" + sb.Home(), "GOMAXPROCS=1", "NO_COLOR=1", "PATH=", "TZ=UTC", "VERIF_NOW=" + fixedNow, "GOTRACEBACK=single"}
 	env = append(env, sb.Env...)
 	env = append(env, extraEnv...)
-	cmd.Env = env
+	cmd.Env = expandEnv(env)
 	var so, se bytes.Buffer
 	cmd.Stdout, cmd.Stderr = &so, &se
 	cmd.SysProcAttr = &syscall.SysProcAttr{Setpgid: true}
